@@ -252,7 +252,8 @@ def one(mon: Monitor, rng: random.Random) -> None:
         kw["shape"] = (rng.randint(3, 40), rng.randint(3, 40))
     elif mode == "shapeint":
         kw["shape"] = rng.randint(3, 60)
-    target = rng.choice([tgt, tgt.lower()]) if not tgt.startswith("utm") else tgt
+    # keywords are matched without regard to letter case (the suite itself asks for "utM-n"): every casing of the word and of the hemisphere letter
+    target = rng.choice([tgt, tgt.lower()]) if not tgt.startswith("utm") else rng.choice([tgt, tgt, tgt.upper(), tgt[:-1] + tgt[-1].upper(), tgt.capitalize()])
     if mode == "res":
         g0, e = call(compute_output_geobox, src, target)
         if e is not None:
@@ -275,7 +276,11 @@ def one(mon: Monitor, rng: random.Random) -> None:
     else:
         xx = xr_zeros(src, dtype="uint8")
         kw2 = {k: v for k, v in kw.items() if k in ("resolution", "shape", "tight", "anchor", "tol")}
-        call(xx.odc.output_geobox, target, **kw2)
+        r_acc, e_acc = call(xx.odc.output_geobox, target, **kw2)
+        try:  # the accessor is an entry point of its own: its answer is judged whether or not it went through the monitored function (shortcuts before it would be invisible otherwise)
+            post_output_geobox((src, target), dict(kw2), r_acc, e_acc, None)
+        except Exception as e:  # noqa: BLE001
+            mon.error("odc.output_geobox", e)
     if rng.random() < 0.1:
         call(compute_output_geobox, src, rng.choice([src.crs, str(src.crs)]))
     if rng.random() < 0.12:
